@@ -220,7 +220,7 @@ def build_diploid(rng, d, params):
     ph = _phase_sets(rng, sc)
     f["phased"] = synth.write_vcf(sc, os.path.join(d, "phased.vcf"), phased=ph)
     f["phased_gz"] = _tabix(f["phased"])
-    sc2, sc3 = _flip_some(rng, sc, 0.0), _flip_some(rng, sc, 0.2)
+    sc2, sc3 = _flip_some(rng, sc, 0.0), _flip_some(rng, sc, 0.1)
     f["phased2"] = synth.write_vcf(sc2, os.path.join(d, "phased2.vcf"), phased=_phase_sets(rng, sc2, 0.05, 3))
     f["phased3"] = synth.write_vcf(sc3, os.path.join(d, "phased3.vcf"), phased=_phase_sets(rng, sc3, 0.3, 1))
     # single-sample files of the same individual under different sample names (compare --ignore-sample-name)
